@@ -30,7 +30,7 @@ MCTraitsNone == {}
 MCTraitsOldRelease == {"ReleaseLeavesUnfinishedOpen"}
 MCTraitsD2 == {"D2_ProxyReadErrorMisfiled"}
 MCTraitsOldReleaseD2 == {"ReleaseLeavesUnfinishedOpen", "D2_ProxyReadErrorMisfiled"}
-MCD14 == {"D14"}
+MCF1 == {"C01_F1"}
 MCMutCloseNoRelease == {"M_CloseNoRelease"}
 MCMutFinallyNoRelease == {"M_FinallyNoRelease"}
 MCMutFullNoClose == {"M_FullNoClose"}
